@@ -47,7 +47,8 @@ Inductive mwop :=
 | MAdd (k v : bytes)       (* req.Header.Add(k, v) *)
 | MSet (k v : bytes)       (* req.Header.Set(k, v) *)
 | MDel (k : bytes)         (* req.Header.Del(k) *)
-| MBadInit.                (* InitMiddleware fails; UpdateRequest does nothing *)
+| MBadInit                 (* InitMiddleware fails; UpdateRequest does nothing *)
+| OCloseFails.             (* not a middleware, an option of the environment: Close of the ammo file fails *)
 
 Definition apply_op (op : mwop) (r : rheaders) : rheaders :=
   match op with
@@ -55,13 +56,21 @@ Definition apply_op (op : mwop) (r : rheaders) : rheaders :=
   | MAdd k v => radd (canon_key k) v r
   | MSet k v => rset (canon_key k) v r
   | MDel k => rdel (canon_key k) r
-  | MBadInit => r
+  | MBadInit | OCloseFails => r
   end.
 
 Definition apply_mw (ops : list mwop) (r : rheaders) : rheaders := fold_left (fun r op => apply_op op r) ops r.
 
 Definition init_fails (ops : list mwop) : bool :=
   existsb (fun op => match op with MBadInit => true | _ => false end) ops.
+
+Definition close_fails (ops : list mwop) : bool :=
+  existsb (fun op => match op with OCloseFails => true | _ => false end) ops.
+
+(* provider.go Run, deferred: the sink is closed, the file is closed; when that fails Run reports
+   it (alone, or joined with its own error) *)
+Definition end_with (ops : list mwop) (o : outcome) : outcome :=
+  if close_fails ops then Failed EUnexpected else o.
 
 (* the header map an ammo object holds: one value per key *)
 Definition lift (h : headers) : rheaders := map (fun p => (fst p, [snd p])) h.
@@ -157,7 +166,7 @@ Definition deliver_m (k : dkind) (preload : bool) (lim pas : nat) (cfgh : header
   : list (content * rheaders) * outcome * bool :=
   if init_fails ops then ([], Failed EUnexpected, true) else
   let '(del, o, cl) := deliver_c k preload lim pas cfgh items chb cancel fuel in
-  (combine del (requests_of k preload ops (contents_of preload cfgh items) del), o, cl).
+  (combine del (requests_of k preload ops (contents_of preload cfgh items) del), end_with ops o, cl).
 
 (* ---------- what a gun sees ---------- *)
 
@@ -178,20 +187,28 @@ Definition is_rerr (r : runclass) : bool := match r with RErr => true | _ => fal
 (* The executable specification on the IMPLEMENTATION's observations of the two providers built
    from the same file with the same middlewares: [spec14_b] on the positions, and every acquired
    request carries exactly [req_spec] of the entry at its position — however often that entry was
-   delivered before.  A middleware that cannot start: nothing delivered, sink closed, Run fails,
-   on both paths. *)
+   delivered before.  The property asks for the SAME end on both paths, not for a particular one:
+   with a middleware that cannot start both must end alike, either at once (nothing delivered, sink
+   closed) or like a run without that failure; when the ammo file's Close fails both must end
+   alike, with what some admissible way of ending allows delivered. *)
 Definition spec14m_b (uri_like : bool) (lim pas : nat) (cfgh : headers) (items : list citem) (chb : list bytes)
            (ops : list mwop) (cancel : option nat) (obsS obsP : list view) (clS clP : bool)
            (rcS rcP : runclass) : bool :=
-  if init_fails ops
-  then (length obsS =? 0) && (length obsP =? 0) && clS && clP && is_rerr rcS && is_rerr rcP
-  else
   let cs := file_entries cfgh items [] 0 in
   let tab := tag_table cs chb in
   let okv o := match nth_error cs (v_pos o) with
                | Some c => view_eqb (view_m uri_like c (req_spec ops (c_hdrs c))) o
                | None => false
                end in
-  spec14_b lim pas (abs_entries tab cs) (abs_chosen tab chb) cancel
-           (map v_pos obsS) (map v_pos obsP) clS clP rcS rcP
-  && forallb okv obsS && forallb okv obsP.
+  let seq_ok rs rp :=
+    spec14_b lim pas (abs_entries tab cs) (abs_chosen tab chb) cancel
+             (map v_pos obsS) (map v_pos obsP) clS clP rs rp
+    && forallb okv obsS && forallb okv obsP in
+  if init_fails ops
+  then runclass_eqb rcS rcP && Bool.eqb clS clP
+       && (((length obsS =? 0) && (length obsP =? 0) && clS && negb (is_rhang rcS)) || seq_ok rcS rcP)
+  else if close_fails ops
+  then runclass_eqb rcS rcP
+       && (seq_ok rcS rcP
+           || (is_rerr rcS && (seq_ok ROk ROk || seq_ok RCanceled RCanceled || seq_ok RNoAmmo RNoAmmo)))
+  else seq_ok rcS rcP.
